@@ -83,6 +83,8 @@ def arg_for12(fname, i, pn, pt, writer):
         inv = [("enum--1", "(%s)-1" % t, 1), ("enum-max+1", "(%s)%s" % (t, nof) if nof else "(%s)1000" % t, 1)]
     if kind == "pnts":
         inv = []          # point sets may legitimately lie in rind planes (indices <= 0 or beyond the core range)
+    if kind == "rmin":
+        inv = [("range-min>max", "SZ_BAD_HI", 1), ("range-min-negative", "SZ_NEG", 1)]
     if kind == "size" and pn in ("start", "end"):
         inv = [("range-start>end", "5" if pn == "start" else "0", 1)]
     if kind == "size" and pn == "npnts":
@@ -109,7 +111,7 @@ def gen_stubs(d, path):
     (position, invalid class).  -> (entries, static_only)"""
     api = [a for a in d["api"] if a["defined"]]
     protos = d["protos"]
-    out, entries, static_only = [], [], {}
+    out, entries, static_only = ["static cgsize_t SZ_NEG[64] = {[0 ... 63] = -5};"], [], {}
     for a in api:
         name = a["name"]
         pr = protos[name]
@@ -179,6 +181,58 @@ def gen_stubs(d, path):
     if not os.path.exists(path) or open(path).read() != txt:
         open(path, "w").write(txt)
     return entries, static_only
+
+
+def gen_getter_rows(d, path):
+    """c12_get_rows.inc for harness/c12_get.c: one function per index row of the getter table"""
+    src = open(os.path.join(vlib.REPO, "src", "cgns_internals.c"), errors="replace").read()
+    out, called, skipped = [], [], []
+    for k, r in enumerate(d["getters"]):
+        if r["kind"] != "Idx":
+            continue
+        g = r["getter"]
+        m = re.search(r"^(cgns_\w+)\s*\*\s*%s\s*\(([^)]*)\)\s*\{(.*?)^\}" % re.escape(g), src, re.M | re.S)
+        if not m:
+            skipped.append((k, g, "definition not found")); continue
+        rtype, plist, body = m.group(1), m.group(2), m.group(3)
+        params = [x.strip().split()[-1].lstrip("*") for x in plist.split(",")]
+        ptypes = [" ".join(x.strip().split()[:-1]) for x in plist.split(",")]
+        if r["idx"] not in params:
+            skipped.append((k, g, "the index is not a parameter (%s)" % r["idx"])); continue
+        parent = r["parent"]
+        # how the getter obtains the parent, and its type
+        if parent in params:
+            pexpr, ptype = parent, ptypes[params.index(parent)].replace("*", "").strip()
+        else:
+            mm = re.search(r"(cgns_\w+)\s*\*\s*%s\s*(?:=\s*(cgi_get_\w+\s*\([^;]*\))\s*)?;" % re.escape(parent), body)
+            ma = re.search(r"\b%s\s*=\s*(cgi_get_\w+\s*\([^;]*\))\s*;" % re.escape(parent), body)
+            if not mm or not (mm.group(2) or ma):
+                skipped.append((k, g, "parent expression not recognised")); continue
+            ptype, pexpr = mm.group(1), (mm.group(2) or ma.group(1))
+        vals = {}
+        for pn, pt in zip(params, ptypes):
+            if pn == "cg":
+                vals[pn] = "cg"
+            elif pn == r["idx"]:
+                vals[pn] = "smp[si]"
+            elif "int" in pt and "*" not in pt:
+                vals[pn] = "0" if (pn == "Z" and parent == "base") or (pn == "P" and parent == "base" and g != "cgi_get_particle") else "1"
+            else:
+                vals[pn] = None
+        if any(v is None for v in vals.values()):
+            skipped.append((k, g, "a parameter that is not an index")); continue
+        pcall = re.sub(r"\b(%s)\b" % "|".join(map(re.escape, params)), lambda mo: vals[mo.group(1)] if mo.group(1) != r["idx"] else "1", pexpr)
+        call = "%s(%s)" % (g, ", ".join(vals[p] for p in params))
+        out.append("static void row_%d(void) {\n  %s *par = %s;\n  if (!par) { printf(\"n %d NOPARENT\\n\"); return; }\n"
+                   "  { int n = (int)par->%s; SAMPLES(n);\n    for (si = 0; si < ns; si++) { %s *r = %s; OUT(%d, n, smp[si], r, par->%s); } }\n}"
+                   % (k, ptype, pcall, k, r["cnt"], rtype, call, k, r["arr"]))
+        called.append(k)
+    out.append("static void all_rows(void) {\n" + "\n".join("  row_%d();" % k for k in called) + "\n}")
+    txt = "\n".join(out) + "\n"
+    os.makedirs(os.path.dirname(path), exist_ok=True)
+    if not os.path.exists(path) or open(path).read() != txt:
+        open(path, "w").write(txt)
+    return called, skipped
 
 
 def build_driver(d):
@@ -284,10 +338,418 @@ def judge(c, e, mode, must=1):
     return bad
 
 
+# ------------------------------------------------------------------------------------------------ keys
+def family(cls):
+    if "handle" in cls:
+        return "handle"
+    if cls.startswith("index"):
+        return "index"
+    if cls == "name-empty":
+        return "name-empty"
+    if cls.startswith("name"):
+        return "name-long"
+    if cls.startswith("enum"):
+        return "enum"
+    if cls.startswith("datatype"):
+        return "datatype"
+    return "range"
+
+
+FAMILY_CLAIM = {"handle": {"handle"}, "index": {"index", "range"}, "name-long": {"name"}, "enum": {"enum", "range"},
+                "range": {"range", "enum", "null"}, "datatype": {"name", "range", "enum"}}
+
+
+def callees_of(f):
+    out = set()
+
+    def walk(l):
+        for s in l:
+            a = s.get("a")
+            if a and a.get("callee"):
+                out.add(a["callee"])
+            for k in ("t", "e", "b"):
+                if k in s:
+                    walk(s[k])
+    walk(f["body"])
+    return out
+
+
+def finding_key(fn, var, what, state, F, claims):
+    """the stable key of a failing case: <function>:<argument>:<class family>, or the key of the shared root cause"""
+    fam = family(var["cls"])
+    changed = any("changed" in w or "CHANGED" in w for w in what)
+    accepted = any(w.startswith("accepted") for w in what)
+    cs = callees_of(F[fn]) if fn in F else set()
+    if fam == "name-empty" and ("name" in claims.get(fn, {}).get(var["pos"] + 1, set())) and not accepted:
+        return "cgi_check_strlen:string:name-empty"      # the validator runs and lets the empty name through
+    if changed and not accepted and state == "bare" and fam != "name-empty":
+        if "cgi_get_zcoorGC" in cs:
+            return "cgi_get_zcoorGC:Z:container-created-before-validation"
+        if "cgi_get_particle_pcoorPC" in cs:
+            return "cgi_get_particle_pcoorPC:P:container-created-before-validation"
+    return "%s:%s:%s" % (fn, var["param"], fam)
+
+
+# ------------------------------------------------------------------------------------------------ selection of cases
+def select_cases(entries, rng, tier, frac_entries=1.0, all_classes=True, only_valid=False):
+    """-> [(entry index, variant)] : which cases a pass runs"""
+    out = []
+    for i, e in enumerate(entries):
+        if frac_entries < 1.0 and rng.random() > frac_entries:
+            continue
+        out.append((i, 0))
+        if only_valid:
+            continue
+        groups = {}
+        for v, var in enumerate(e["variants"]):
+            if v == 0:
+                continue
+            groups.setdefault((var["pos"], family(var["cls"])), []).append(v)
+        for g, vs in groups.items():
+            if all_classes or len(vs) <= 2:
+                out += [(i, v) for v in vs]
+            else:
+                out += [(i, v) for v in rng.sample(vs, 2)]
+    return out
+
+
+def run_cases(exe, tmpl, workdir, backend, mode, cases, tag, timeout=1500):
+    """the (entry, variant) pairs split over JOBS driver processes (balanced); -> parsed cases"""
+    env = dict(os.environ); env.update(vlib.ASAN_ENV); env["C12_BACKEND"] = backend
+    chunks = [cases[j::JOBS] for j in range(JOBS)]
+    procs = []
+    for j, ch in enumerate(chunks):
+        if not ch:
+            continue
+        wk = os.path.join(workdir, "w_%s_%d.cgns" % (tag, j))
+        lf = wk + ".list"
+        open(lf, "w").write("".join("%d %d\n" % c for c in ch))
+        of = open(wk + ".out", "w")
+        procs.append((subprocess.Popen([exe, "invl", tmpl, wk, str(mode), lf], stdout=of, stderr=subprocess.DEVNULL, cwd=workdir, env=env), of, wk + ".out"))
+    res = []
+    for p, of, path in procs:
+        try:
+            p.wait(timeout=timeout)
+        except subprocess.TimeoutExpired:
+            p.kill(); p.wait()
+        of.close()
+        res += parse_cases(open(path, errors="replace").read().split("\n"))
+    return res
+
+
+def model_lists():
+    out = {}
+    for l in vlib.run_model("c12", "", args=["lists"]):
+        t = l.split()
+        if t and t[0] == "l":
+            out[t[1]] = t[2:]
+    return out
+
+
+def model_claims():
+    claims, modes = {}, {}
+    for l in vlib.run_model("c12", "", args=["claims"]):
+        t = l.split()
+        if not t:
+            continue
+        if t[0] == "c":
+            for pc in t[2:]:
+                p, c = pc.split(":")
+                claims.setdefault(t[1], {}).setdefault(int(p), set()).add(c)
+        elif t[0] == "m":
+            modes[t[1]] = set(t[2:])
+    return claims, modes
+
+
+def getter_correspondence(ck, d, tm, work):
+    gen = os.path.join(vlib.HDIR, "gen_c12")
+    called, skipped = gen_getter_rows(d, os.path.join(gen, "c12_get_rows.inc"))
+    exe = vlib.build_harness("c12_get", ["c12_get.c"], includes=[gen])
+    files = [tm[k] for k in sorted(tm) if k[1] in ("rich12", "unstr")]
+    lines, outcome = vlib.run_impl(exe, "", args=files, cwd=work)
+    g = [l for l in lines if l.startswith("g ")]
+    script = "\n".join(" ".join(l.split()[:4]) for l in g) + "\n"
+    m = [l for l in vlib.run_model("c12", script, args=["getters"]) if l.startswith("g ")]
+    div = [(a, b) for a, b in zip(g, m) if a != b]
+    if len(g) != len(m):
+        div.append(("%d lines" % len(g), "%d lines" % len(m)))
+    nontrivial = len({(l.split()[1], l.split()[2]) for l in g if int(l.split()[2]) > 0})
+    return dict(rows_called=len(called), rows_skipped=[list(x) for x in skipped], samples=len(g), outcome=outcome, divergences=div[:10],
+                rows_with_nonempty_arrays=nontrivial), div, outcome
+
+
 def run(ck):
-    raise vlib.Infra("C12 is under construction")
+    big = ck.tier == "thorough"
+    t_start = time.time()
+    vlib.build_impl()
+    info, d = c12_validate.write_gen(repo=vlib.REPO, impl=vlib.IMPL)
+    exe, entries, static_only = build_driver(d)
+    E = {e["name"]: e for e in entries}
+    F = {}
+    for f in d["functions"]:
+        F.setdefault(f["name"], f)
+    res = vlib.coq_check_properties("C12")
+    broken = ck.proof_result(res, CHECKER)
+    forb = vlib.coq_forbidden_scan("C12")
+    ck.extra["forbidden_tokens"] = forb
+    if forb:
+        ck.violation({"broken_obligation": "forbidden tokens in the Coq files C12 depends on", "hits": forb}, nofail=True)
+    vlib.build_modelrun("c12")
+    L = model_lists()
+    claims, modegates = model_claims()
+    # the Python mirror (line numbers for the reports) must agree with the extracted Coq functions
+    import c12_explain
+    ex = c12_explain.Explain(d, coq_dir=vlib.COQ)
+    ex.analyse()
+    dom = sorted(n for n in ex.api if n not in set(L.get("file_ops", [])))
+    mirror = {"late": [n for n in dom if (n, "CW") not in ex.V], "silent": [n for n in dom if (n, "CW") not in ex.NS],
+              "tolerant": [n for n in dom if ex.why_tolerant(n)]}
+    tie_broken = []
+    for k in ("late", "silent", "tolerant"):
+        if sorted(L.get(k, [])) != sorted(mirror[k]):
+            tie_broken.append({"list": k, "only_coq": sorted(set(L.get(k, [])) - set(mirror[k]))[:10], "only_mirror": sorted(set(mirror[k]) - set(L.get(k, [])))[:10]})
+    excused = {"late": set(L.get("known_late", [])) | set(L.get("revalidating_wrappers", [])), "tolerant": set(L.get("known_tolerant", [])),
+               "silent": set(L.get("known_silent", []))}
+    new_static = {k: sorted(set(L.get(k, [])) - excused[k]) for k in excused}       # functions that newly fail an obligation
+    ck.extra["translator"] = dict(info, entry_points=len(d["api"]), in_domain=len(dom), late=len(L.get("late", [])), tolerant=len(L.get("tolerant", [])),
+                                  silent=len(L.get("silent", [])), unclean_getters=L.get("unclean_getters", []), newly_failing=new_static,
+                                  mirror_disagreement=tie_broken, claims=sum(len(v) for v in claims.values()),
+                                  entry_points_with_mode_gate=sum(1 for v in modegates.values() if v))
+    ck.cov["trusted_base"] = [
+        "Coq 8.16.1 kernel + vm_compute (no native_compute)",
+        "translators/c12_validate.py (clang 14 -ast-dump=json of the four files; the walk that turns a body into the structured skeleton: which "
+        "test links to which call, check classes, parameter dependence / identity tokens, break/continue/goto handling) and the helpers it "
+        "imports from translators/c07_gates.py -- cross-checked dynamically: every claimed validation is exercised with the matching invalid class",
+        "the modelling decisions of coq/Validate.v: benign_stores (caches / lazily allocated empty containers), prim_effects / benign_externs of "
+        "Gates.v, `prepare` (a re-validation with identical argument identities cannot fail; a callee's check of a value that is not a caller "
+        "parameter is an internal error of the caller), CState checks are not argument checks, the exception lists (each entry tagged)",
+        "the skeleton machine abstracts data: conditions are oracle bits; what it cannot exhibit (out-of-bounds accesses after validation, heap "
+        "layout) is left to ASan/UBSan in the dynamic runs",
+        "extraction: ExtrOcamlBasic only; OCaml 4.13.1; ocaml/eng_c12.ml, ocaml/zutil.ml",
+        "harness/c12_drv.c (+ harness/c07_drv.c: SHA-256, cgio tree walk, template files), harness/c12_get.c, the stub generator in this file, "
+        "ASan/UBSan; translators/c12_explain.py only names source lines (its lists are compared with the extracted ones)",
+    ]
+    ck.assumptions = ["PARTIAL: proved = validation order, failure propagation, message provenance, index arithmetic (all entry points, named exceptions "
+                      "apart); memory safety after validation is TESTED under ASan/UBSan, not proved",
+                      "the back ends (ADF_*/ADFH_* mutators, unlink/rename) are the only primitives that change a file (Gates.prim_effects)",
+                      "entity counts never shrink inside one API call (re-validation assumption of Validate.prepare)",
+                      "file-level operations (cg_open, cg_close, cg_save_as, cg_is_cgns, cgio_open_file, cgio_close_file, cgio_compress_file, cgio_copy_file, "
+                      "library configuration / exit) are outside the domain; ADF / ADFH internals are reached only dynamically through cgio_*",
+                      "the current position (cg / posit) is navigation state, not session view: an invalid handle clears the current file and later "
+                      "node-context calls fail with 'no current CGNS file open'"]
+    ck.cov["rule"] = ("every callable public entry point (stub generated from the prototype table) x every argument position x every invalid class of its "
+                      "kind (handle: closed / never issued / 0 / -1; index: 0 / -1 / count+1 / INT_MAX; name: empty / 33 / 1000 characters; enum: -1 / "
+                      "max+1; ranges and sizes: min>max, negative, beyond, 0 / -1 / 13 dimensions; data type strings) x {ADF, HDF5} x {rich structured + "
+                      "particles + second base, unstructured, bare zone} x {MODIFY, READ, WRITE}; each call in its own process with a watchdog; oracle: "
+                      "error status, non-empty message, read-API dump unchanged, cgio tree digest (and SHA-256 in READ mode) equal to a control run, no "
+                      "sanitizer report.  quick: all classes on ADF/rich/modify and ADF/bare/modify, seeded samples elsewhere.  non-trivial = the same "
+                      "entry point accepts the valid variant in that configuration (the invalid argument is the only reason to fail); distinct by "
+                      "(entry point, parameter, class, configuration)")
+    work = ck.work
+    tm = make_templates(exe, work)
+
+    # ---- getter model vs the real getters
+    gc, gdiv, goutcome = getter_correspondence(ck, d, tm, work)
+    ck.extra["getter_correspondence"] = gc
+    ck.cov["traces_validated_against_impl"] += gc["samples"]
+
+    # ---- the property's own oracle
+    rng = ck.rng
+    if big:
+        plan = [("adf", "rich12", "modify", 1.0, True, False), ("adf", "bare", "modify", 1.0, True, False), ("adf", "unstr", "modify", 1.0, True, False),
+                ("adf", "rich12", "read", 1.0, True, False), ("adf", "unstr", "read", 0.5, True, False), ("adf", "bare", "read", 0.5, True, False),
+                ("hdf5", "rich12", "modify", 0.55, True, False), ("hdf5", "bare", "modify", 1.0, True, False), ("hdf5", "unstr", "modify", 0.5, True, False),
+                ("hdf5", "rich12", "read", 0.25, True, False), ("hdf5", "unstr", "read", 0.25, False, False),
+                ("adf", "bare", "write", 1.0, True, False), ("hdf5", "bare", "write", 0.5, True, False)]
+    else:
+        plan = [("adf", "rich12", "modify", 1.0, False, False), ("adf", "bare", "modify", 1.0, False, False),
+                ("hdf5", "rich12", "modify", 0.12, False, False), ("hdf5", "bare", "modify", 0.2, False, False),
+                ("adf", "unstr", "read", 0.2, False, False), ("adf", "bare", "write", 0.3, False, False)]
+    findings, observations, dyn = {}, {}, {"passes": [], "cases": 0, "sanitizer_reports": 0}
+    valid_ok, rejected = {}, {}
+    for (b, st, mode, frac, allc, onlyv) in plan:
+        t0 = time.time()
+        cases = select_cases(entries, rng, ck.tier, frac, allc, onlyv)
+        rs = run_cases(exe, tm[(b, st)], work, b, MODES[mode], cases, "%s_%s_%s" % (b, st, mode))
+        cfg = "%s/%s/%s" % (b, st, mode)
+        dyn["passes"].append({"config": cfg, "cases": len(rs), "wall_s": round(time.time() - t0, 1)})
+        dyn["cases"] += len(rs)
+        ok_here = {c["name"] for c in rs if c["v"] == 0 and c.get("st") == "0" and c.get("out") == "ok"}
+        for c in rs:
+            e = E.get(c["name"])
+            if e is None or c["v"] >= len(e["variants"]):
+                continue
+            var = e["variants"][c["v"]]
+            fn = e["fn"]
+            if c.get("out") not in ("ok", None):
+                dyn["sanitizer_reports"] += 1
+            if c["v"] == 0:
+                if c.get("st") == "0":
+                    valid_ok.setdefault(fn, set()).add(cfg)
+                if c.get("out") != "ok" and not c.get("openfail"):
+                    observations.setdefault("valid-call:" + fn, {"what": san_summary(c), "config": cfg})
+                # wrong open mode: a documented writer on a READ-mode handle must be refused
+                if mode == "read" and e["doc"] == "Write" and c.get("st") == "0":
+                    findings.setdefault("%s:mode:read-only-handle" % fn, {"level": "inv", "config": cfg, "entry": c["name"], "variant": 0, "desc": "valid arguments, READ-mode handle",
+                                                                         "what": ["a writer accepted a READ-mode handle"], "observed": {k: c.get(k) for k in ("st", "msg", "view", "tree", "file", "out")}})
+                continue
+            nontrivial = c["name"] in ok_here
+            ck.case((fn, var["param"], var["cls"], cfg) if nontrivial else None,
+                    sample={"config": cfg, "entry": c["name"], "variant": var["desc"], "status": c.get("st"), "message": c.get("msg"), "view": c.get("view"),
+                            "tree": c.get("tree"), "outcome": c.get("out")} if nontrivial and len(ck.cov["samples"]) < 4 else None)
+            if c.get("st") not in (None, "0"):
+                rejected.setdefault((fn, var["pos"] + 1), set()).add(family(var["cls"]))
+            w = judge(c, e, MODES[mode], var["must"])
+            if w and var["must"]:
+                key = finding_key(fn, var, w, st, F, claims)
+                wit = {"level": "inv", "config": cfg, "backend": b, "state": st, "mode": mode, "entry": c["name"], "variant": c["v"], "desc": var["desc"],
+                       "what": w, "observed": {k: c.get(k) for k in ("st", "msg", "view", "tree", "file", "out")}, "stderr": c.get("stderr", [])[:6],
+                       "valid_variant_accepted_here": nontrivial,
+                       "oracle": "an invalid argument => error status, non-empty message, read-API dump and file content unchanged, no sanitizer report",
+                       "replay_hint": ".build/h/c12_drv inv <template %s/%s> <work> %d <entry index> <entry index + 1> %d %d" % (b, st, MODES[mode], c["v"], c["v"] + 1)}
+                if key in findings:
+                    findings[key].setdefault("also", [])
+                    if len(findings[key]["also"]) < 12:
+                        findings[key]["also"].append("%s %s %s: %s" % (cfg, c["name"], var["desc"], "; ".join(w)[:80]))
+                else:
+                    findings[key] = wit
+    ck.cov["traces_validated_against_impl"] += dyn["cases"]
+
+    # ---- use after close (DESIGN.md section 6 row 11)
+    nuac = int(vlib.run_impl(exe, "", args=["nuac"], cwd=work)[0][0])
+    uac = []
+    for b in (BACKENDS if big else ["adf"]):
+        for k in (range(nuac) if big else rng.sample(range(nuac), 4)):
+            lines, outcome = vlib.run_impl(exe, "", args=["uac", os.path.join(work, "u1.cgns"), os.path.join(work, "u2.cgns"), b, str(k)], cwd=work)
+            cs = parse_cases(lines)
+            ck.cov["evaluations"] += 1
+            for c in cs:
+                bad = c.get("out") != "ok" or c.get("st") == "0" or c.get("msg") == "EMPTY" or c.get("view") == "CHANGED"
+                uac.append({"backend": b, "call": c["name"], "status": c.get("st"), "outcome": san_summary(c) if c.get("out") != "ok" else "ok"})
+                if bad:
+                    findings.setdefault("cg_close:fn:current-file-dangling",
+                                        {"level": "uac", "backend": b, "k": k, "call": c["name"], "observed": {x: c.get(x) for x in ("st", "msg", "view", "out")},
+                                         "stderr": c.get("stderr", [])[:6], "what": [san_summary(c) if c.get("out") != "ok" else "accepted / view changed"],
+                                         "oracle": "files f1, f2 open; cg_goto(f1, ..); cg_close(f1); a node-context call must fail cleanly (the current file is closed)"})
+    dyn["use_after_close"] = uac
+
+    # ---- cross-checks of the translator rows (tie T <-> C)
+    contradicted = []
+    confirmed = 0
+    for fn, ps in claims.items():
+        for p, cl in ps.items():
+            for (f2, p2), fams in rejected.items():
+                pass
+    for e in entries:
+        fn = e["fn"]
+        for v, var in enumerate(e["variants"]):
+            if v == 0 or var["must"] != 1:
+                continue
+            fam = family(var["cls"])
+            cl = claims.get(fn, {}).get(var["pos"] + 1, set())
+            if cl & FAMILY_CLAIM.get(fam, set()):
+                if fam in rejected.get((fn, var["pos"] + 1), set()):
+                    confirmed += 1
+    for key, wit in findings.items():
+        if wit.get("level") == "inv" and any(w.startswith("accepted") for w in wit.get("what", [])):
+            fn = E[wit["entry"]]["fn"]
+            var = E[wit["entry"]]["variants"][wit["variant"]] if wit.get("variant") else None
+            if var and (claims.get(fn, {}).get(var["pos"] + 1, set()) & FAMILY_CLAIM.get(family(var["cls"]), set())):
+                contradicted.append({"entry": fn, "param": var["param"], "class": var["cls"], "table": sorted(claims[fn][var["pos"] + 1])})
+    dyn["claims_confirmed"] = confirmed
+    dyn["claims_contradicted"] = contradicted[:10]
+
+    # ---- verdicts
+    for key, wit in sorted(findings.items()):
+        ck.finding(key, wit)
+    problems = []
+    if broken:
+        problems.append({"broken_obligations": broken})
+    if tie_broken:
+        problems.append({"python_mirror_disagrees_with_extracted_lists": tie_broken})
+    if any(new_static.values()):
+        problems.append({"entry_points_newly_failing_an_obligation": new_static,
+                         "where": {n: (ex.why_late(n) if n in new_static["late"] else ex.why_silent(n) if n in new_static["silent"] else ex.why_tolerant(n))
+                                   for n in sum(new_static.values(), [])[:8]}})
+    if gdiv or goutcome != "ok":
+        problems.append({"getter_model_vs_implementation": gc})
+    if contradicted:
+        problems.append({"claims_contradicted": contradicted[:10]})
+    if problems and not ck.violations:
+        # widened search: everything about the functions behind the broken obligation, all classes, all states, both back ends
+        suspects = set(sum(new_static.values(), []))
+        for br in broken:
+            suspects |= set(re.findall(r"\b(cgi?o?_\w+)\b", br.get("message", "")))
+        idxs = [i for i, e in enumerate(entries) if e["fn"] in suspects or (not suspects)]
+        found = False
+        if idxs and len(idxs) < len(entries):
+            for b in BACKENDS:
+                for st in STATES:
+                    for mode in ("modify", "read"):
+                        cases = [(i, v) for i in idxs for v in range(entries[i]["nvar"])]
+                        rs = run_cases(exe, tm[(b, st)], work, b, MODES[mode], cases, "widen_%s_%s_%s" % (b, st, mode))
+                        ck.cov["evaluations"] += len(rs)
+                        for c in rs:
+                            e = E.get(c["name"])
+                            if e is None or c["v"] == 0:
+                                continue
+                            var = e["variants"][c["v"]]
+                            w = judge(c, e, MODES[mode], var["must"])
+                            if w and var["must"]:
+                                key = finding_key(e["fn"], var, w, st, F, claims)
+                                if ck.finding(key, {"level": "inv", "config": "%s/%s/%s" % (b, st, mode), "backend": b, "state": st, "mode": mode, "entry": c["name"],
+                                                    "variant": c["v"], "desc": var["desc"], "what": w, "found_by": "widened search behind a broken obligation"}):
+                                    found = True
+        if not found and not ck.violations:
+            ck.violation({"problems": problems,
+                          "note": "an obligation over the regenerated table no longer checks (or a tie broke) but every invalid call explored failed cleanly"},
+                         nofail=True)
+    dyn["findings"] = sorted(findings)
+    dyn["observations_outside_the_property"] = observations
+    dyn["entry_points_called"] = len(entries)
+    dyn["static_only"] = sorted(static_only)
+    dyn["entry_points_whose_valid_variant_is_accepted_somewhere"] = len(valid_ok)
+    ck.extra["dynamic"] = dyn
+    ck.extra["proved_vs_tested"] = {
+        "proved": "C12_getter_bounds / _complete / _rejects (any count, any array), C12_invalid_no_change (RINV => unchanged, any table passing van_ok), "
+                  "C12_failing_check_fails, C12_failure_has_message, and their table-level instances on the regenerated table "
+                  "(C12_validate_before_effect, C12_checks_guarded, C12_error_nonempty, C12_getter_table) with the named exceptions",
+        "tested_only": "memory safety after validation (ASan/UBSan), the entry points of the exception lists, the session view and file content after "
+                       "every invalid call"}
+    ck.extra["input_distribution"] = {"plan": [list(x) for x in plan], "entry_points": len(entries), "variants": sum(e["nvar"] - 1 for e in entries),
+                                      "classes": sorted({v["cls"] for e in entries for v in e["variants"][1:]})}
+    ck.extra["wall_s_parts"] = {"total": round(time.time() - t_start, 1)}
 
 
 def replay(ck, path):
-    print("under construction")
-    return 1
+    r = json.load(open(path))
+    vlib.build_impl()
+    info, d = c12_validate.write_gen(repo=vlib.REPO, impl=vlib.IMPL)
+    exe, entries, static_only = build_driver(d)
+    idx = {e["name"]: i for i, e in enumerate(entries)}
+    E = {e["name"]: e for e in entries}
+    tm = make_templates(exe, ck.work)
+    if r.get("level") == "inv" and r.get("entry") in idx:
+        b, st, mode = r["config"].split("/") if "config" in r else (r["backend"], r["state"], r["mode"])
+        rs = run_cases(exe, tm[(b, st)], ck.work, b, MODES[mode], [(idx[r["entry"]], 0), (idx[r["entry"]], r["variant"])], "replay")
+        fails, det = False, []
+        for c in rs:
+            e = E[c["name"]]
+            var = e["variants"][c["v"]]
+            if c["v"] == 0:
+                if r["variant"] == 0 and c.get("st") == "0":
+                    fails = True
+                continue
+            w = judge(c, e, MODES[mode], var["must"])
+            det.append({"variant": var["desc"], "what": w, "observed": {k: c.get(k) for k in ("st", "msg", "view", "tree", "file", "out")}, "stderr": c.get("stderr", [])[:5]})
+            fails = fails or bool(w)
+    elif r.get("level") == "uac":
+        lines, outcome = vlib.run_impl(exe, "", args=["uac", os.path.join(ck.work, "u1.cgns"), os.path.join(ck.work, "u2.cgns"), r["backend"], str(r["k"])], cwd=ck.work)
+        cs = parse_cases(lines)
+        fails = any(c.get("out") != "ok" or c.get("st") == "0" or c.get("msg") == "EMPTY" or c.get("view") == "CHANGED" for c in cs)
+        det = [{k: c.get(k) for k in ("name", "st", "msg", "view", "out")} for c in cs]
+    else:
+        print("replay names a broken obligation / tie, no input to run:", json.dumps(r)[:800])
+        return 1
+    print("replay: property C12 on this input: %s %s" % ("FAILS" if fails else "holds", json.dumps(det)[:900]))
+    return 1 if fails else 0
